@@ -1,6 +1,7 @@
 package main
 
 import (
+	"strconv"
 	"fmt"
 	"math/big"
 	"strings"
@@ -79,6 +80,40 @@ var scenarios = []scenario{
 		n.Block([][]byte{n.MkTx(n.Accts[1], transaction.TypeEditCandidatePublicKey, transaction.EditCandidatePublicKeyData{PubKey: n.Vals[1].Pub, NewPubKey: mkVal(4242).Pub}, 0, 0, 1, nil)}, nil)
 		n.Block(nil, nil)
 		n.Block(nil, nil)
+		return n
+	}},
+	// a transaction whose own commission swap runs through the pool of the limit order it is about:
+	// the commission fills the order (wholly / partly) before Run gets to it
+	{"commission-swap-through-the-orders-own-pool", func() *Node {
+		n := nodeStd(4)
+		a := n.Accts[0]
+		for v, poolSize := range []int64{10, 10, 10000} {
+			sym := types.StrToCoinSymbol(fmt.Sprintf("ORDTOKEN%d", v))
+			r := n.Block([][]byte{n.MkTx(a, transaction.TypeCreateToken, transaction.CreateTokenData{Name: "t", Symbol: sym, InitialAmount: pip(1000000), MaxSupply: pip(2000000), Mintable: true, Burnable: true}, 0, 0, 1, nil)}, nil)
+			if len(r.Txs) != 1 || r.Txs[0].Code != 0 {
+				panic(fmt.Sprint("setup failed ", codes(r)))
+			}
+			tok := types.CoinID(n.App.CurrentState().App().GetCoinsCount())
+			n.Block([][]byte{n.MkTx(a, transaction.TypeCreateSwapPool, transaction.CreateSwapPoolData{Coin0: 0, Coin1: tok, Volume0: pip(poolSize), Volume1: pip(poolSize)}, 0, 0, 1, nil)}, nil)
+			// sell 0.01 BIP for 0.0101 token (v=0), a larger order that the commission fills only partly (v=1)
+			sell, buy := ZS("10000000000000000"), ZS("10100000000000000")
+			if v == 1 {
+				sell, buy = pip(2), new(big.Int).Add(pip(2), ZS("20000000000000000"))
+			}
+			r = n.Block([][]byte{n.MkTx(a, transaction.TypeAddLimitOrder, transaction.AddLimitOrderData{CoinToSell: 0, ValueToSell: sell, CoinToBuy: tok, ValueToBuy: buy}, 0, 0, 1, nil)}, nil)
+			id := uint32(0)
+			if len(r.Txs) == 1 && r.Txs[0].Code == 0 {
+				x, _ := strconv.Atoi(r.Txs[0].Tags["tx.order_id"])
+				id = uint32(x)
+			}
+			n.Block([][]byte{n.MkTx(a, transaction.TypeRemoveLimitOrder, transaction.RemoveLimitOrderData{ID: id}, tok, 0, 1, nil)}, nil)
+			n.Block([][]byte{n.MkTx(a, transaction.TypeRemoveLimitOrder, transaction.RemoveLimitOrderData{ID: id}, tok, 0, 1, nil)}, nil)
+			// a second order, then an AddLimitOrder / a Send paid through the same pool
+			n.Block([][]byte{n.MkTx(a, transaction.TypeAddLimitOrder, transaction.AddLimitOrderData{CoinToSell: 0, ValueToSell: sell, CoinToBuy: tok, ValueToBuy: buy}, 0, 0, 1, nil)}, nil)
+			n.Block([][]byte{n.MkTx(a, transaction.TypeAddLimitOrder, transaction.AddLimitOrderData{CoinToSell: 0, ValueToSell: sell, CoinToBuy: tok, ValueToBuy: buy}, tok, 0, 1, nil)}, nil)
+			n.Block([][]byte{n.MkTx(a, transaction.TypeSend, transaction.SendData{Coin: tok, To: n.Accts[1].Addr, Value: pip(1)}, tok, 0, 1, nil)}, nil)
+			n.Block(nil, nil)
+		}
 		return n
 	}},
 	{"failed-tx-fee-from-dust-balance-through-pool", func() *Node {
